@@ -67,6 +67,10 @@ theorem rc_prim (e : Nat) {a b : Core} (hp : CorePrim a b) (hne : ∀ ev, b = lo
     unfold takeCtx; split
     · simp only; rw [modOwner_log]; exact rCount_snoc_ne e _ _ (by intro h; cases h)
     · exact rCount_snoc_ne e _ _ (by intro h; cases h)
+  | updateCtx ty d =>
+    unfold updateCtx; split
+    · simp only; rw [modOwner_log]; exact rCount_snoc_ne e _ _ (by intro h; cases h)
+    · exact rCount_snoc_ne e _ _ (by intro h; cases h)
   | setPaused o p => unfold setPaused; rw [pauseWalk_log]
   | setCur cur => rfl
   | logEv ev he => exact rCount_snoc_ne e _ _ (hne ev rfl)
@@ -90,6 +94,10 @@ theorem LogLe.prim {a b : Core} (hp : CorePrim a b) : LogLe a b := by
   | useCtx ty => unfold useCtx; split <;> exact List.mem_append_left _ he
   | takeCtx ty =>
     unfold takeCtx; split
+    · simp only; rw [modOwner_log]; exact List.mem_append_left _ he
+    · exact List.mem_append_left _ he
+  | updateCtx ty d =>
+    unfold updateCtx; split
     · simp only; rw [modOwner_log]; exact List.mem_append_left _ he
     · exact List.mem_append_left _ he
   | setPaused o p => unfold setPaused; rw [pauseWalk_log]; exact he
@@ -431,6 +439,11 @@ theorem rc_useCtx (e : Nat) (c : Core) (ty : Nat) : rCount e (useCtx c ty).log =
   · exact rCount_snoc_ne e _ _ (by intro hh; cases hh)
   · exact rCount_snoc_ne e _ _ (by intro hh; cases hh)
 
+theorem rc_updateCtx (e : Nat) (c : Core) (ty : Nat) (d : Int) : rCount e (updateCtx c ty d).log = rCount e c.log := by
+  unfold updateCtx; split
+  · simp only; rw [modOwner_log]; exact rCount_snoc_ne e _ _ (by intro hh; cases hh)
+  · exact rCount_snoc_ne e _ _ (by intro hh; cases hh)
+
 theorem rc_takeCtx (e : Nat) (c : Core) (ty : Nat) : rCount e (takeCtx c ty).log = rCount e c.log := by
   unfold takeCtx; split
   · simp only; rw [modOwner_log]; exact rCount_snoc_ne e _ _ (by intro hh; cases hh)
@@ -577,6 +590,7 @@ theorem k_execWith {e : Nat} {ex : St → BOp → St} (hex : Kex e ex) (hsx : SR
   | provide ty v => exact h.core (provide · ty v) (by rw [provide_log])
   | use ty => exact h.core (useCtx · ty) (rc_useCtx e _ _)
   | take ty => exact h.core (takeCtx · ty) (rc_takeCtx e _ _)
+  | update ty d => exact h.core (updateCtx · ty d) (rc_updateCtx e _ _ _)
   | effect b => exact k_newEffect h b _
   | memo b => exact k_newMemo h b
   | newOwner => exact k_newOwnerHandle h
@@ -616,6 +630,7 @@ theorem k_execHandlerTok (e : Nat) (a st : St) (op : BOp) (h : K e a st) : K e a
   | nested tag => exact h
   | provide ty v => exact h
   | take ty => exact h
+  | update ty d => exact h
   | effect b => exact h
   | memo b => exact h
   | newOwner => exact h
